@@ -74,3 +74,53 @@ def run(ctx):
                           v["kind"] + "_" + sig, clause="combine", case=dict(bits=list(bits)))
     for f in (fa, ff, fr):
         os.remove(f)
+
+
+def run_cli(ctx):
+    """the MIMAS command line builds the same region: -o out -depth N +c / -c / +p / -p / +r / -r"""
+    import logging
+    from AegeanTools.CLI import MIMAS as cli
+    d = os.environ.get("VERIF_SCRATCH", "/dev/shm")
+    fa = os.path.join(d, "cli_add.mim")
+    ra = Region(MD)
+    ra.add_circles(*np.radians(ADD_C))
+    ra.save(fa)
+    poly = lambda flat: hpset.polygon(MD, list(zip(flat[0::2], flat[1::2])))
+    logging.disable(logging.CRITICAL)
+    for bits in itertools.product([0, 1], repeat=5):
+        argv = ["-o", os.path.join(d, "cli_out.mim"), "-depth", str(MD)]
+        model = set()
+        if bits[0]:
+            argv += ["+r", fa]
+            model |= _disc(ADD_C)
+        if bits[1]:
+            argv += ["+c"] + [str(v) for v in INC_C]
+            model |= _disc(INC_C)
+        if bits[2]:
+            argv += ["-c"] + [str(v) for v in EXC_C]
+            model -= _disc(EXC_C)
+        if bits[3]:
+            argv += ["+p"] + [str(v) for v in INC_P]
+            model |= poly(INC_P)
+        if bits[4]:
+            argv += ["-p"] + [str(v) for v in EXC_P]
+            model -= poly(EXC_P)
+        ctx.count("mimas_cli")
+        sig = "mimas_cli|fields=%s" % "".join(map(str, bits))
+        out = os.path.join(d, "cli_out.mim")
+        if os.path.exists(out):
+            os.remove(out)
+        try:
+            cli.main(argv)
+            reg = Region.load(out)
+        except SystemExit:
+            continue
+        except Exception as e:
+            ctx.violation("MIMAS CLI %r raised %r" % (argv[4:], e), "raise_" + sig, clause="combine", case=dict(bits=list(bits)))
+            continue
+        if reg.maxdepth != MD:
+            ctx.violation("MIMAS CLI -depth %d gives a region of depth %r" % (MD, reg.maxdepth), "depth_" + sig, clause="combine", case=dict(bits=list(bits)))
+            continue
+        for v in regsys.check_region(reg, frozenset(model), "cli"):
+            ctx.violation("%s (MIMAS CLI %r)" % (v["what"], argv[4:]), v["kind"] + "_" + sig, clause="combine", case=dict(bits=list(bits)))
+    os.remove(fa)
